@@ -55,8 +55,32 @@ var clk atomic.Int64 // unix nanos of the virtual clock
 // padBytes: see call() in buildSites
 var padBytes int
 
-func setClock(ns int64) { clk.Store(ns) }
-func nowSec() int64     { return clk.Load() / int64(time.Second) }
+// The controlled clock lives in [clockStart, clockLimit] (int64 nanoseconds overflow at
+// 9.22e9 s): when the scenario epochs approach clockLimit the sites are rebuilt through the
+// same real constructors and the epoch restarts at clockStart. Inside one generation the
+// clock never goes backwards; anything else is a defect of this driver and is reported as an
+// infrastructure failure (exit 3), never as a verdict.
+const (
+	clockStart = int64(2_000_000_000) * int64(time.Second)
+	clockLimit = int64(7_000_000_000) * int64(time.Second)
+)
+
+var clkFloor int64
+
+func setClock(ns int64) {
+	if ns < clockStart || ns > clockLimit+int64(400*24*time.Hour) || ns < clkFloor {
+		fatal("controlled clock out of range or running backwards: %d ns (previous %d)", ns, clkFloor)
+	}
+	clkFloor = ns
+	clk.Store(ns)
+}
+
+// resetClock starts a new clock generation (only together with freshly built sites).
+func resetClock(ns int64) { clkFloor = 0; setClock(ns) }
+
+var cleanup []func()
+
+func nowSec() int64 { return clk.Load() / int64(time.Second) }
 
 type site struct {
 	Name     string `json:"name"`
@@ -127,6 +151,20 @@ func measureTTL(nc *security.NonceCache, at *int64) int64 {
 	return hi
 }
 
+// freshSites tears down the previous generation (if any), restarts the clock at clockStart and
+// builds every site again through the real constructors.
+func freshSites(at *int64) []*site {
+	for _, f := range cleanup {
+		f()
+	}
+	cleanup = nil
+	*at = clockStart
+	resetClock(*at)
+	sites := buildSites(at)
+	*at = (*at/int64(time.Second) + 1) * int64(time.Second) // probes leave a fractional epoch behind
+	return sites
+}
+
 func buildSites(at *int64) []*site {
 	setClock(*at)
 	nop := zerolog.Nop()
@@ -145,6 +183,7 @@ func buildSites(at *int64) []*site {
 	if err := coord.Start(); err != nil {
 		fatal("Coordinator.Start: %v", err)
 	}
+	cleanup = append(cleanup, func() { _ = coord.Stop() })
 	cc := cluster.VerifNonceCache(coord)
 	if cc == nil {
 		fatal("Coordinator.Start left nonceCache nil")
@@ -246,6 +285,7 @@ func buildSites(at *int64) []*site {
 	ciApp := fiber.New(fiber.Config{DisableStartupMessage: true})
 	ci.Register(ciApp)
 	ciH := serve(ciApp)
+	cleanup = append(cleanup, func() { _ = ciApp.Shutdown() })
 	sites = append(sites, &site{Name: "cache-invalidate", TolWhere: ciTol.Where, TolText: ciTol.Text, TolNs: int64(ciTol.D),
 		TtlWhere: ciTTL.Where, TtlText: ciTTL.Text, cache: ciCache,
 		deliver: func(sender, nonce string, ts int64) (bool, error) {
@@ -279,6 +319,7 @@ func buildSites(at *int64) []*site {
 	esApp := fiber.New(fiber.Config{DisableStartupMessage: true})
 	es.RegisterRoutes(esApp)
 	esH := serve(esApp)
+	cleanup = append(cleanup, func() { _ = esApp.Shutdown() })
 	const otherHub = "some-other-hub"
 	esVerdict := func(st int) (bool, error) {
 		switch st {
@@ -371,6 +412,7 @@ type result struct {
 	Violations map[string]*finding `json:"violations"`
 	Drift      map[string]*finding `json:"drift"`
 	Samples    []map[string]any    `json:"samples"`
+	Rebuilds   int                 `json:"clock_generations_restarted"`
 	Truncated  map[string]int      `json:"truncated,omitempty"` // site -> schedules replayed before the replay was cut short
 	Infra      string              `json:"infra,omitempty"`
 }
@@ -396,9 +438,8 @@ func main() {
 		fatal("noncesites.Gen is empty: build with -tags noncegen after running noncegen")
 	}
 	security.VerifNow = func() time.Time { return time.Unix(0, clk.Load()) }
-	at := int64(2_000_000_000) * int64(time.Second) // scenario epochs: whole seconds, far from the wall clock
-	sites := buildSites(&at)
-	at = (at/int64(time.Second) + 1) * int64(time.Second) // probes leave a fractional epoch behind
+	at := clockStart // scenario epochs: whole seconds, far from the wall clock
+	sites := freshSites(&at)
 	res := &result{Sites: sites, Scenarios: map[string]int{}, PerSite: map[string]int{}, Classes: map[string]int{},
 		Violations: map[string]*finding{}, Drift: map[string]*finding{}}
 	if *mode == "replay" {
@@ -425,7 +466,7 @@ func main() {
 				fatal("%v", err)
 			}
 			res.Scenarios[s.Name] = len(scs)
-			if msg := replaySite(s, scs, &at, res); msg != "" {
+			if msg := replaySite(s.Name, &sites, scs, &at, res); msg != "" {
 				res.Infra = msg
 				break
 			}
@@ -455,7 +496,18 @@ func record(m map[string]*finding, sig, siteName string, w map[string]any) {
 	f.Sites[siteName]++
 }
 
-func replaySite(s *site, scs []scenario, at *int64, res *result) string {
+func siteByName(sites []*site, name string) *site {
+	for _, s := range sites {
+		if s.Name == name {
+			return s
+		}
+	}
+	fatal("site %s missing after rebuild", name)
+	return nil
+}
+
+func replaySite(name string, sites *[]*site, scs []scenario, at *int64, res *result) string {
+	s := siteByName(*sites, name)
 	var maxT int64
 	for _, sc := range scs {
 		for _, e := range sc.Ev {
@@ -464,9 +516,20 @@ func replaySite(s *site, scs []scenario, at *int64, res *result) string {
 			}
 		}
 	}
-	gap := (maxT*half+s.TtlNs)/int64(time.Second)*int64(time.Second) + int64(10*time.Minute)
+	// between two scenarios: every entry of the previous one has expired and the sweep interval has passed
+	gap := (maxT*half+s.TtlNs)/int64(time.Second)*int64(time.Second) + int64(2*time.Minute)
 	relation := rel(s.TtlH, s.TolS)
 	for i, sc := range scs {
+		if *at+2*gap > clockLimit {
+			// out of clock: fresh instances through the same real constructors, epoch back to clockStart
+			tolS, ttlH := s.TolS, s.TtlH
+			*sites = freshSites(at)
+			s = siteByName(*sites, name)
+			if s.TolS != tolS || s.TtlH != ttlH {
+				fatal("site %s changed its (tolerance, retention) after a rebuild", name)
+			}
+			res.Rebuilds++
+		}
 		*at += gap
 		epoch := *at
 		epochSec := epoch / int64(time.Second)
